@@ -89,7 +89,12 @@ impl Builder {
         signing_keys: CelestiaKeys,
         state: Arc<State>,
     ) -> Result<Self, Box<BuilderError>> {
+        #[cfg(not(all(test, feature = "verif")))]
         let grpc_channel = Endpoint::from(uri).timeout(REQUEST_TIMEOUT).connect_lazy();
+        #[cfg(all(test, feature = "verif"))]
+        let grpc_channel = crate::relayer::verif::hooks::connect_lazy(
+            Endpoint::from(uri).timeout(REQUEST_TIMEOUT),
+        );
         let address = bech32_encode(&signing_keys.address)?;
         Ok(Self {
             configured_celestia_chain_id,
